@@ -23,7 +23,7 @@ ASSUMPTIONS = ['reference prices: long liq = entry*(1 - 1/L + 0.004), bankruptcy
                'range of a minute = open-normalised input candle; of a chunk = union of its minutes']
 MIN_OBS = {'liquidation_checks_with_open_position': 3000, 'liquidations': 150, 'near_misses': 60, 'exact_touches': 40,
            'protective_stop_wins': 40, 'control_sessions': 100, 'one_ulp_cases': 60,
-           'liquidation_checks_on_reentered_position': 300}
+           'liquidation_checks_on_reentered_position': 300, 'sessions_with_a_second_candle_series': 200}
 LEVS = [1, 2, 3, 5, 10, 25, 50, 100, 125]
 PATTERNS = ['near_miss', 'ulp_short', 'touch', 'ulp_beyond', 'overshoot', 'gap_jump']
 
@@ -171,7 +171,15 @@ def run_job(job):
         script['fixed_qty'] = round(0.2 * 10000 / info['entry'], 3)
     spec = {'config': cfg, 'routes': [{'symbol': 'BTC-USDT', 'timeframe': job['tf'], 'script': script}],
             'data_routes': [], 'candles': {}, 'warmup': 0, 'fast': job['fast']}
-    out = session.run_session(spec, candles={'BTC-USDT': arr})
+    cands = {'BTC-USDT': arr}
+    if job.get('extra_series'):
+        # a second candle series in the session (a data route on another symbol, quietly trading elsewhere): the liquidation
+        # check belongs to every series, whichever is processed last
+        other = arr.copy()
+        other[:, 1:5] = 50.0 + 0.01 * np.arange(len(arr))[:, None]
+        spec['data_routes'] = [{'symbol': job['extra_series'], 'timeframe': job['tf']}]
+        cands[job['extra_series']] = other
+    out = session.run_session(spec, candles=cands)
     viol, cnt = check_trace(out['events'], arr, cfg, job)
     if out['error']:
         cnt['sessions_aborted:' + out['error']['type']] = 1
@@ -180,6 +188,8 @@ def run_job(job):
     for x in viol:
         x['witness'].update(job=job, info=info, candles_tail=arr[-12:].tolist())
     cnt['sessions'] = 1
+    if job.get('extra_series'):
+        cnt['sessions_with_a_second_candle_series'] = 1
     if mode != 'isolated':
         cnt['control_sessions'] = 1
     sig = repr((job['lev'], job['side'], job['pattern'], job['stop'], job['fast'], mode, job['averaged'], job['tf'],
@@ -209,6 +219,7 @@ def check_trace(events, arr, cfg, job):
     in_liq_orders = []
     n_closed = 0
     liq_done = {}          # symbol -> the liquidation check of the minute / chunk in progress has already run
+    awaiting = {}          # symbol -> trace position of its last matched minute / chunk that has not been checked yet
     for e in events:
         k = e['k']
         if k == 'trade_closed':
@@ -217,6 +228,14 @@ def check_trace(events, arr, cfg, job):
         # chunk once its liquidation check has run (the forced close itself is filled inside the check; MARKET orders of the
         # strategy step that follows are not resting orders)
         if k in ('match_enter', 'mmatch_enter'):
+            # every matched minute / chunk of a symbol is followed by that symbol's liquidation check before its next one is
+            # matched (whatever other candle series the session carries)
+            if awaiting.get(e.get('symbol')):
+                v('minute_matched_without_a_liquidation_check_for_its_symbol',
+                  f'{e.get("symbol")}: the minute / chunk matched at trace event {awaiting[e.get("symbol")]} was not followed by a '
+                  f'liquidation check of that symbol')
+            awaiting[e.get('symbol')] = e['seq']
+            c('matched_minutes_paired_with_a_liquidation_check')
             liq_done[e.get('symbol')] = False
         elif k == 'exec_ret' and cur is None and e.get('status') == 'EXECUTED' and e.get('type') != 'MARKET' \
                 and liq_done.get(e.get('symbol')):
@@ -224,6 +243,7 @@ def check_trace(events, arr, cfg, job):
               f'{e.get("type")} order of {e.get("symbol")} executed at {e.get("executed_at")} after the liquidation check of the '
               f'same minute / chunk had already run', order=e.get('o'))
         if k == 'liq_enter':
+            awaiting[e.get('symbol')] = None
             cur = {'enter': e, 'submits': [], 'execs': []}
         elif cur is not None and k == 'submit':
             cur['submits'].append(e)
@@ -346,6 +366,6 @@ def make_jobs(tier, seed):
                          'tf': rng.choice(['1m', '1m', '5m']), 'fee': rng.choice([0, 0.0005, 0.001]),
                          'close_mode': rng.choice(['half', 'half', 'recover_profit', 'at_extreme']),
                          'resting_tps': rng.choice([0, 0, 3, 4]), 'partial_tp': rng.random() < 0.5, 'callback_market': rng.random() < 0.5, 'wick_gap': rng.random() < 0.3,
-                         'reentry': rng.random() < 0.35})
+                         'reentry': rng.random() < 0.35, 'extra_series': rng.choice([None, None, 'ETH-USDT', 'SOL-USDT'])})
             i += 1
     return jobs
